@@ -182,6 +182,25 @@ def run(ctx):
     both = readers & wr
     ctx.ob('R07.8', 'adjust -> Task.crash_counter', bool(both), f'a reader of the adjust map writes Task.crash_counter ({sorted(x.split("::")[-1] for x in both)})', None)
 
+    # ---- R07.10: typestate of the worker's server channel: nothing is sent after the sender was dropped
+    ctx.rule('R07.10', 'worker: no message to the server after WorkerComm::drop_sender (the final Stop(reason) would be lost and the loss classified as a failure); run_worker sends the stop reason before closing')
+    WC = T + 'worker::comm::WorkerComm::'
+    nds = 0
+    for p_, b_ in prog.bodies.items():
+        if not p_.startswith(T + 'worker::') or is_test_util(p_):
+            continue
+        ds = b_.call_blocks(WC + 'drop_sender')
+        if not ds:
+            continue
+        nds += 1
+        after = b_.reach_after(ds[0]) if len(ds) == 1 else set().union(*[b_.reach_after(x) for x in ds])
+        late = [x for x in b_.call_blocks(WC + 'send_message_to_server') if x in after]
+        ctx.ob('R07.10', f'{p_.split("::")[-2] if p_.endswith("}") else p_.split("::")[-1]}|no send after drop_sender', not late,
+               'send_message_to_server is not reachable after drop_sender', b_.loc(late[0]) if late else b_.loc(ds[0]))
+        sends = [x for x in b_.call_blocks(WC + 'send_message_to_server') if any(d in b_.reach_after(x) for d in ds)]
+        ctx.ob('R07.10', f'{p_.split("::")[-2] if p_.endswith("}") else p_.split("::")[-1]}|stop reason sent before closing', bool(sends),
+               'the graceful-exit path sends its final message to the server and only then drops the sender', b_.loc(ds[0]))
+    ctx.floor('R07.10', nds, 1, 'bodies that drop the server sender')
     # ---- R07.9: rpc.rs stop-reason override
     rpc = [b for b in prog.find_bodies(r'^tako::internal::server::rpc::worker_rpc_loop(::\{closure#\d+\})*$')]
     ctx.require(rpc, 'R07.9: worker_rpc_loop not found')
